@@ -182,9 +182,31 @@ def raw(out):
     return out.tensor() if isinstance(out, pp.LieTensor) else out
 
 
+THIN = (1e-15, 1e-14, 1e-13, 1e-12, 1e-11, 1e-10, 1e-9, 1e-8, 1e-7, 1e-6, 1e-5)
+
+
 def make_leaf(rng, typ, lshape, dtype, mode):
-    """mode: 'generic' | 'identity' | 'tiny' | 'large'."""
+    """mode: 'generic' | 'identity' | 'tiny' | 'large' | 'thin' (rotation angle between eps and
+    1e-5 with every other block O(1): the band where closed forms cancel)."""
     n = int(np.prod(lshape)) if len(lshape) else 1
+    if mode == "thin" and typ[0] in ("G", "A"):
+        u = lie.u_of(dtype)
+        ang = np.array([rng.choice(THIN + (1.5 * u, 3 * u)) for _ in range(n)])
+        axis = rng.standard_normal((n, 3))
+        axis /= np.linalg.norm(axis, axis=-1, keepdims=True)
+        t = rng.standard_normal((n, 3))
+        sg = rng.uniform(-0.4, 0.4, n)
+        if typ[0] == "G":
+            k = typ[1]
+            X = L.join_grp(k, L.ld(t), L.axis_angle_quat(axis, ang) * rng.choice([-1.0, 1.0], (n, 1)), np.exp(L.ld(sg)))
+            return pp.LieTensor(torch.as_tensor(np.asarray(X, dtype=np.float64)).to(dtype).reshape(lshape + (L.GRP[k],)).clone(),
+                                ltype=lie.LT[k])
+        k = typ[1]
+        x = L.join_alg(k, L.ld(t), L.ld(axis * ang[:, None]), L.ld(sg))
+        return pp.LieTensor(torch.as_tensor(np.asarray(x, dtype=np.float64)).to(dtype).reshape(lshape + (L.ALG[k],)).clone(),
+                            ltype=lie.LT[k])
+    if mode == "thin":
+        mode = "generic"
     if typ[0] == "G":
         k = typ[1]
         if mode == "identity":
